@@ -35,13 +35,20 @@ cp $OUT/patch.diff $DST/patch.diff
 for f in $demos; do cp $SRC/$f $DST/$(echo $f | tr '/' '_'); done
 [ -f $OUT/notes.md ] && cp $OUT/notes.md $DST/notes.md
 [ -f $OUT/demo.md ] && cp $OUT/demo.md $DST/demo.md
-python3 - "$ID" "$build" "$suite" "$demo_with" "$demo_without" "$verdict" "$rc" "$first" "$pkgs" "$TIER" > $DST/meta.json <<'PY'
+python3 - "$ID" "$build" "$suite" "$demo_with" "$demo_without" "$verdict" "$rc" "$first" "$pkgs" "$TIER" "$DST/meta.json" > $DST/meta.new <<'PY'
 import json,sys,subprocess
-ID,build,suite,dw,dwo,verdict,rc,first,pkgs,tier=sys.argv[1:11]
+ID,build,suite,dw,dwo,verdict,rc,first,pkgs,tier,old=sys.argv[1:12]
 head=subprocess.check_output(['git','-C','/repo','rev-parse','--short','HEAD']).decode().strip()
-print(json.dumps({"property":ID,"origin":"independent sub-agent given only the property text and a scratch worktree","repo_head_checked":head,
+keep={}
+try:
+    keep={k:v for k,v in json.load(open(old)).items() if k in ('change','needs_to_manifest','round','history')}
+except Exception: pass
+m=({"property":ID,"origin":"independent sub-agent given only the property text and a scratch worktree","repo_head_checked":head,
  "build_with_change":build,"pinned_suite_with_change":suite,"demo_with_change":dw,"demo_without_change":dwo,"demo_command":"go test -vet=off -count=1 -run Seed "+pkgs,
  "our_check":"VERIF_REPO=<worktree with patch> ./check %s %s"%(ID,tier),"our_check_exit":int(rc),"our_check_verdict":verdict,"first_violation":first,
- "needs_to_manifest":"see notes.md"},indent=1))
+ "needs_to_manifest":"see notes.md"})
+m.update(keep)
+print(json.dumps(m,indent=1))
 PY
+mv $DST/meta.new $DST/meta.json
 echo "$ID: build=$build suite=$suite demo_with=$demo_with demo_without=$demo_without check=$verdict (rc=$rc) | $first"
